@@ -53,6 +53,11 @@ def run_one(m, prop, tier="quick"):
         p = subprocess.run([os.path.join(VERIF, "check"), prop, "--tier", tier], env=env, capture_output=True, text=True)
         fired = [l for l in p.stdout.splitlines() if l.strip().startswith("violation [")]
         rules = sorted({l.split("[", 1)[1].split("]", 1)[0] for l in fired})
+        if m.get("neutral"):
+            # behaviour-preserving variant: the check must stay silent
+            ok = p.returncode == 0 and not fired
+            return {"id": m["id"], "status": "killed" if ok else "missed", "neutral": True, "rules_fired": rules,
+                    "expected": [], "first": fired[0].strip()[:300] if fired else "silent, as required"}
         ok = p.returncode == 1 and any(r in m["rules"] for r in rules)
         return {"id": m["id"], "status": "killed" if ok else "missed", "rules_fired": rules, "expected": m["rules"],
                 "first": fired[0].strip()[:300] if fired else ""}
